@@ -30,6 +30,9 @@ def generate(tier, seed):
     n = 25 if tier == "quick" else 2500
     for k in range(n):
         cases.append({"kind": "single", "seed": "%d:s:%d" % (seed, k), "cost": 12})
+    n = 40 if tier == "quick" else 3000
+    for k in range(n):
+        cases.append({"kind": "same-states", "seed": "%d:ss:%d" % (seed, k), "cost": 30})
     return cases
 
 
@@ -38,10 +41,102 @@ def setup(tier):
     contracts.import_all_propka()
 
 
+def same_states_case(case, rng, viol, counts, classes):
+    """Alternate locations that repeat the same coordinates (2-3 states on part of 1-3 residues),
+    optionally with explicit hydrogens and -k / --protonate-all: all conformations are the same
+    structure, so they must carry identical results, equal to the average and to the run of the
+    structure written without alternate locations."""
+    from .. import obs, pdbio, sources, util
+    base = [r for r in sources.random_small_structure(rng, 60, 500) if r.raw is not None or r.alt in (" ", "A")]
+    base = sources.no_hydrogens([multiconf_blank(r) for r in base])
+    from .c06 import has_twins, relabel
+    if has_twins(base):
+        # insertion-code twins are merged when conformations are completed (known finding, judged by
+        # the top-up oracle of the other cases): number them apart here
+        base, _ = relabel(base, "icode-renumber", rng)
+    mode = rng.choice(("plain", "keep-protons", "keep-protons", "protonate-all"))
+    opts = {"plain": [], "keep-protons": ["-k"], "protonate-all": ["--protonate-all"]}[mode]
+    desc = {"kind": "same-states", "mode": mode}
+    if mode == "keep-protons":
+        base = [r for r in base if r.raw is not None or r.tag == "ATOM  "]
+        r0 = obs.run_single(pdbio.dump(base), with_atoms=True, write_pka=False)
+        counts["pipeline_runs"] = counts.get("pipeline_runs", 0) + 1
+        if r0.exc or len(r0.rec["names"]) != 1:
+            return desc, "base raised"
+        base, nh, _ = sources.with_hydrogens(base, r0.rec["confs"][r0.rec["names"][0]]["hydrogens"])
+        desc["hydrogens"] = nh
+        # move the supplied hydrogens a little off the positions the program would build itself, so
+        # that a conformation which lost them and had them rebuilt cannot look the same
+        jig = []
+        for r in base:
+            if r.raw is None and r.elem() == "H":
+                r = r.copy()
+                r.x += rng.randrange(-120, 121)
+                r.y += rng.randrange(-120, 121)
+                r.z += rng.randrange(-120, 121)
+            jig.append(r)
+        base = jig
+    resids = sorted({(r.chain, r.resnum, r.icode) for r in base if r.raw is None and r.tag == "ATOM  "})
+    if not resids:
+        return desc, "no residues"
+    chosen = set(rng.sample(resids, min(len(resids), rng.choice((1, 2, 3)))))
+    nstates = rng.choice((2, 2, 3))
+    part = rng.choice(("sidechain-heavy", "whole-residue", "one-atom"))
+    out = []
+    one = None
+    for r in base:
+        if r.raw is None and (r.chain, r.resnum, r.icode) in chosen:
+            hit = {"whole-residue": True,
+                   "sidechain-heavy": r.aname() not in ("N", "CA", "C", "O") and r.elem() != "H",
+                   "one-atom": False}[part]
+            if part == "one-atom" and one is None and r.aname() not in ("N", "CA", "C", "O") and r.elem() != "H":
+                hit, one = True, r
+            if hit:
+                for st in "ABC"[:nstates]:
+                    c = r.copy()
+                    c.alt = st
+                    out.append(c)
+                continue
+        out.append(r)
+    desc.update({"states": nstates, "part": part, "residues": len(chosen)})
+    multi = obs.run_single(pdbio.dump(out), opts)
+    ref = obs.run_single(pdbio.dump(base), opts)
+    counts["pipeline_runs"] = counts.get("pipeline_runs", 0) + 2
+    if multi.exc or ref.exc:
+        if multi.exc_type != ref.exc_type:
+            viol.append({"cls": "same-states-outcome-differs", "msg": "with alternate locations: %r, without: %r" % (multi.exc, ref.exc)})
+        return desc, "raised"
+    names = multi.rec["names"]
+    counts["same_state_inputs"] = counts.get("same_state_inputs", 0) + 1
+    classes.append("same-states:" + mode)
+    if len(names) != nstates:
+        viol.append({"cls": "conformation-set", "msg": "%d alternate-location states, conformations %r" % (nstates, names)})
+        return desc, None
+    refc = ref.rec["confs"][ref.rec["names"][0]]
+    for n in names + ["AVR"]:
+        target = ref.rec["confs"]["AVR"] if n == "AVR" else refc
+        d = obs.compare_confs(target, multi.rec["confs"][n], tol=1e-7, dets=(n != "AVR"),
+                              only=(lambda g: g["use"]) if n == "AVR" else None)
+        counts["same_state_comparisons"] = counts.get("same_state_comparisons", 0) + 1
+        if d:
+            viol.append({"cls": "same-states-differ", "msg": "%s (%s, %d states on %s): conformation %s differs from the structure without alternate "
+                         "locations: %s" % (mode, " ".join(opts) or "default", nstates, part, n, obs.brief(d, 4))})
+            break
+    return desc, None
+
+
+def multiconf_blank(r):
+    from .. import multiconf
+    return multiconf._blank_alt(r) if r.raw is None else r
+
+
 def run_case(case, tier):
     from .. import multiconf, obs, pdbio, sources, util
     rng = random.Random(case["seed"])
     viol, counts, classes = [], {}, []
+    if case["kind"] == "same-states":
+        desc, inc = same_states_case(case, rng, viol, counts, classes)
+        return util.finish(case, viol, counts, classes, inc is None, desc, inconclusive=inc)
     ignore = tuple(util.parse_cfg()["ignore_residues"])
     desc = {"kind": case["kind"]}
     if case["kind"] == "file":
@@ -136,6 +231,8 @@ def verdict(tier, counts, classes, nontrivial, results):
             reasons.append("class %s never observed" % c)
     if counts.get("identical_model_checks", 0) == 0:
         reasons.append("identical models never exercised")
+    if counts.get("same_state_comparisons", 0) == 0:
+        reasons.append("identical alternate-location states never exercised")
     if nontrivial < 8:
         reasons.append("fewer than 8 non-trivial cases")
     return reasons
